@@ -207,6 +207,8 @@ class Imaging(Probe):
         weights = opts.pop("weights", None)
         if weights is None:
             weights = sm.system.get("weights", broadcast=False)
+        if opts.get("phase") is None:
+            opts["phase"] = sm.system.get("phase", broadcast=False)
         # imaging function
         return utils.imaging(
             coords,
